@@ -221,7 +221,8 @@ def sampler_obligations(ck):
             def drawn(p):
                 return sum(int(np.prod(d.get("shape") or (1,))) for d in p.rng_draws)
 
-            okd = all(len(p.rng_draws) == nchunks and drawn(p) == nb and all(float(d["lo"]) == 0.0 and float(d["hi"]) == 1.0 for d in p.rng_draws) for p in paths if p.kind == "return")
+            # (how the draws are grouped -- one per chunk, or all before the loop -- is not part of the contract)
+            okd = all(drawn(p) == nb and all(float(d["lo"]) == 0.0 and float(d["hi"]) == 1.0 for d in p.rng_draws) for p in paths if p.kind == "return")
             ck.direct("%s/ghost.rng%s" % (qn, tag), okd and any(p.kind == "return" for p in paths), "post", "symbolic execution", clause="u=None draws exactly one fresh uniform(0,1) number per event of every chunk",
                       note=str([[d.get("shape") for d in p.rng_draws] for p in paths][:3]), replay_out=None if okd else native_first(ck))
             continue
